@@ -885,6 +885,13 @@ def r16_no_shared_defaults(ctx, rule):
                         'argument: state of one generator / session / ruleset leaks into the next one created in the same process')
 
 
+def _length_domain(ctx, rule):
+    # "none missing": the generator walks every length the model lists, starting at the n-gram size (seed C10-k: the length
+    # loader's guard compared with min_size instead of min_size - 1 and dropped the shortest length)
+    from . import c11
+    return c11.r5_length_domain(ctx, rule)
+
+
 def r11_generator_state_per_object(ctx, rule):
     """Cursor, parse tree and cache belong to one generator / one optimizer: no OMEN class keeps a mutable container at class level
     that its methods change in place."""
@@ -901,7 +908,7 @@ def _omen_reader_strip(ctx, rule):
 
 def rules(tier):
     return [('C10.R1', r1_copy_discipline), ('C10.R2', r2_memo_key), ('C10.R3', r3_sibling_constructions), ('C10.R4', r4_exact_last_transition),
-            ('C10.R5', r5_sibling_cursor_advance), ('C10.R6', r6_model_immutable), ('C10.R7', r7_prune_discipline), ('C10.R8', r8_guess_from_tree), ('C10.R9', r9_level_cursor_domain), ('C10.R10', r10_cache_key_agreement), ('C10.R11', r11_generator_state_per_object), ('C10.R12', r12_hit_implies_stored), ('C10.R13', r13_window_slices), ('C10.R14', r14_zero_budget_is_valid), ('C10.R15', _omen_reader_strip), ('C10.R16', r16_no_shared_defaults)]
+            ('C10.R5', r5_sibling_cursor_advance), ('C10.R6', r6_model_immutable), ('C10.R7', r7_prune_discipline), ('C10.R8', r8_guess_from_tree), ('C10.R9', r9_level_cursor_domain), ('C10.R10', r10_cache_key_agreement), ('C10.R11', r11_generator_state_per_object), ('C10.R12', r12_hit_implies_stored), ('C10.R13', r13_window_slices), ('C10.R14', r14_zero_budget_is_valid), ('C10.R15', _omen_reader_strip), ('C10.R16', r16_no_shared_defaults), ('C10.R17', _length_domain)]
 
 
 META = {
